@@ -28,6 +28,20 @@ def _u(Y):
     return Y.URL(BASE)
 
 
+class _S(str):
+    """a plain str subclass (like str-based Enum members or multidict.istr): values of such types are documented query values"""
+
+
+def _istr(t):
+    from multidict import istr
+    return istr(t)
+
+
+def _MD(pairs):
+    from multidict import MultiDict
+    return MultiDict(pairs)
+
+
 E = []
 
 
@@ -81,6 +95,8 @@ add("with_name", "path", "quote", lambda Y, t: _u(Y).with_name(t), strip="/", ra
     needs=lambda t: t not in (".", ".."), tags=["segment"])
 add("with_suffix", "path", "quote", lambda Y, t: _u(Y).with_suffix("." + t), strip="/", raw=lambda u: u.raw_suffix, tags=["segment", "suffix"],
     needs=lambda t: t != "")
+add("with_suffix.escaped-old", "path", "other", lambda Y, t: Y.URL("http://h.example/d/%D1%84.%D1%82%20x").with_suffix("." + t), strip="/", needs=lambda t: t != "")
+add("with_suffix.twice", "path", "other", lambda Y, t: Y.URL("http://h.example/d/n").with_suffix("." + t).with_suffix("." + t), strip="/", needs=lambda t: t != "")
 add("with_fragment", "fragment", "quote", lambda Y, t: _u(Y).with_fragment(t), raw=lambda u: u.raw_fragment, readback=lambda u: u.fragment)
 add("with_query.str", "query", "qstring", lambda Y, t: _u(Y).with_query(t), raw=lambda u: u.raw_query_string)
 add("extend_query.str", "query", "qstring", lambda Y, t: Y.URL("http://h.example/").extend_query(t), raw=lambda u: u.raw_query_string)
@@ -90,6 +106,11 @@ add("with_query.pairs", "qpair", "quote", lambda Y, t: _u(Y).with_query([(t, t)]
 add("with_query.kwargs", "qpair", "quote", lambda Y, t: _u(Y).with_query(**{t: t}), needs=lambda t: t != "")
 add("update_query.dict", "qpair", "quote", lambda Y, t: Y.URL("http://h.example/").update_query({t: t}), needs=lambda t: t != "")
 add("extend_query.pairs", "qpair", "quote", lambda Y, t: Y.URL("http://h.example/").extend_query([(t, t)]), needs=lambda t: t != "")
+add("with_query.dict.strsub", "qpair", "quote", lambda Y, t: _u(Y).with_query({_S(t): _S(t)}), needs=lambda t: t != "")
+add("with_query.dict.strsub.list", "qpair", "other", lambda Y, t: _u(Y).with_query({"k": [_S(t), _S(t)]}))
+add("update_query.dict.istr", "qpair", "quote", lambda Y, t: Y.URL("http://h.example/").update_query({_istr(t): _istr(t)}), needs=lambda t: t != "")
+add("extend_query.pairs.strsub", "qpair", "quote", lambda Y, t: Y.URL("http://h.example/").extend_query([(_S(t), _S(t))]), needs=lambda t: t != "")
+add("build.query.multidict.strsub", "qpair", "quote", lambda Y, t: Y.URL.build(scheme="http", host="h.example", query=_MD([(_S(t), _S(t))])), needs=lambda t: t != "")
 add("mod.dict", "qpair", "quote", lambda Y, t: Y.URL("http://h.example/") % {t: t}, needs=lambda t: t != "")
 add("div", "path", "quote", lambda Y, t: _u(Y) / t, raw=lambda u: u.raw_path, readback=lambda u: u.path, prefix="/b0/c0/", tags=["auth-path", "child"],
     needs=lambda t: not t.startswith("/"))
